@@ -15,9 +15,9 @@
 //                                  max=<n> stop=<k> thr=<i>:<mal|nf>,...  cb=packet|pdu   f=<filter text to end of line>
 //   offline <how> f=<filter>       OfflinePacketFilter over the frames read back as RawPDU (how = pdu | buf)
 //
-// Annotate mode (argv[1] = "annotate"): stateless, one line per frame
-//   ann <dlt> <how> <classes,comma> <hex> f=<filter>
-//   -> s=<hex written> adv=<n> m=<0|1> mo=<0|1> p:<Class>=<outcome> ...
+// Annotate mode (argv[1] = "annotate"): stateless, two lines per frame
+//   ann <dlt> <how> <hex> f=<filter>   -> s=<hex written> adv=<n> m=<0|1> mo=<0|1>
+//   annp <classes,comma> <hex of s>    -> p:<Class>=<outcome> ...
 // the outcomes come from constructing the classes directly and from libpcap's pcap_offline_filter called directly;
 // they are the abstract parse / filter oracles of the Lean model (which models the loop, not the dissectors).
 #include "common.h"
@@ -167,12 +167,28 @@ static PDU* pdu_to_write(const std::string& how, const bytes& b) {
     return new RawPDU(b.data(), uint32_t(b.size()));
 }
 
+// `ann <dlt> <how> <hex> f=<filter>`  ->  s=<hex written> adv=<n> m=<0|1> mo=<0|1>       (the writer's side)
+// `annp <classes,comma> <hex>`         ->  p:<Class>=<outcome> ...                       (the dissectors' side)
 static std::string annotate(const std::string& line) {
     auto w = words(line);
-    if (w.size() < 5 || w[0] != "ann") return "bad-op";
+    if (w.size() >= 3 && w[0] == "annp") {
+        bytes b;
+        if (!parse_hex(w[2], b)) return "bad-op";
+        std::ostringstream o;
+        std::istringstream cs(w[1]);
+        std::string cls;
+        bool first = true;
+        while (std::getline(cs, cls, ',')) {
+            if (!first) o << " ";
+            first = false;
+            o << "p:" << cls << "=" << parse_outcome(cls, b.data(), uint32_t(b.size()));
+        }
+        return o.str();
+    }
+    if (w.size() < 4 || w[0] != "ann") return "bad-op";
     int dlt = std::stoi(w[1]);
     bytes b;
-    if (!parse_hex(w[4], b)) return "bad-op";
+    if (!parse_hex(w[3], b)) return "bad-op";
     std::string filter = rest_after(line, "f=");
     std::ostringstream o;
     std::unique_ptr<PDU> pdu(pdu_to_write(w[2], b));
@@ -186,11 +202,6 @@ static std::string annotate(const std::string& line) {
     o << "s=" << to_hex(s.data(), s.size()) << " adv=" << adv;
     o << " m=" << direct_match(dlt, filter, true, s.data(), uint32_t(s.size()), adv);
     o << " mo=" << direct_match(dlt, filter, false, s.data(), uint32_t(s.size()), uint32_t(s.size()));
-    std::istringstream cs(w[3]);
-    std::string cls;
-    while (std::getline(cs, cls, ',')) {
-        o << " p:" << cls << "=" << parse_outcome(cls, s.data(), uint32_t(s.size()));
-    }
     return o.str();
 }
 
